@@ -49,11 +49,11 @@ Qed.
 
 (* ---------- the inner loops over one row ---------- *)
 Lemma sorted_loop_spec (j : list N) pe : pe <= lenN j -> lenN j < 2 ^ 31 ->
-  forall fuel jj, (N.to_nat (pe - jj) < fuel)%nat ->
+  forall fuel jj, (N.to_nat (pe - jj) < fuel)%nat -> jj <= pe ->
   exists r, sorted_loop fuel j jj pe = Ok r /\
             (r = true <-> forall t, jj <= t -> t + 1 < pe -> nthN j t 0 <= nthN j (t + 1) 0).
 Proof.
-  intros Hpe Hs. induction fuel; intros jj Hf; [lia|].
+  intros Hpe Hs. induction fuel; intros jj Hf Hjj; [lia|].
   cbn [sorted_loop]. rewrite uadd_small by lia.
   destruct (N.ltb_spec (jj + 1) pe) as [Hlt|Hge].
   - rewrite (getN_ok j jj 0) by lia. cbn [bind].
@@ -61,7 +61,7 @@ Proof.
     destruct (N.ltb_spec (nthN j (jj + 1) 0) (nthN j jj 0)) as [Hb|Hb].
     + exists false. split; [reflexivity|]. split; [discriminate|].
       intros H. specialize (H jj ltac:(lia) Hlt). lia.
-    + destruct (IHfuel (jj + 1) ltac:(lia)) as (r & Hr & Hq). exists r. split; [assumption|].
+    + destruct (IHfuel (jj + 1) ltac:(lia) ltac:(lia)) as (r & Hr & Hq). exists r. split; [assumption|].
       rewrite Hq. split.
       * intros H t T1 T2. destruct (N.eq_dec t jj) as [->|]; [assumption|]. apply H; lia.
       * intros H t T1 T2. apply H; lia.
@@ -69,11 +69,11 @@ Proof.
 Qed.
 
 Lemma dup_loop_spec (j : list N) pe : pe <= lenN j -> lenN j < 2 ^ 31 ->
-  forall fuel jj, (N.to_nat (pe - jj) < fuel)%nat ->
+  forall fuel jj, (N.to_nat (pe - jj) < fuel)%nat -> jj <= pe ->
   exists r, dup_loop fuel j jj pe = Ok r /\
             (r = true <-> exists t, jj <= t /\ t + 1 < pe /\ nthN j t 0 = nthN j (t + 1) 0).
 Proof.
-  intros Hpe Hs. induction fuel; intros jj Hf; [lia|].
+  intros Hpe Hs. induction fuel; intros jj Hf Hjj; [lia|].
   cbn [dup_loop]. rewrite uadd_small by lia.
   destruct (N.ltb_spec (jj + 1) pe) as [Hlt|Hge].
   - rewrite (getN_ok j jj 0) by lia. cbn [bind].
@@ -81,7 +81,7 @@ Proof.
     destruct (N.eqb_spec (nthN j jj 0) (nthN j (jj + 1) 0)) as [Hb|Hb].
     + exists true. split; [reflexivity|]. split; [|reflexivity].
       intros _. exists jj. repeat split; try assumption; lia.
-    + destruct (IHfuel (jj + 1) ltac:(lia)) as (r & Hr & Hq). exists r. split; [assumption|].
+    + destruct (IHfuel (jj + 1) ltac:(lia) ltac:(lia)) as (r & Hr & Hq). exists r. split; [assumption|].
       rewrite Hq. split.
       * intros (t & T1 & T2 & T3). exists t. repeat split; try assumption; lia.
       * intros (t & T1 & T2 & T3). destruct (N.eq_dec t jj) as [->|]; [contradiction|].
@@ -141,9 +141,11 @@ Proof.
   - lia.
   - intros i _ Hi. rewrite (getN_ok p i 0) by lia. cbn [bind]. rewrite uadd_small by lia.
     rewrite (getN_ok p (i + 1) 0) by lia. cbn [bind].
-    apply sorted_loop_spec; [apply p_le; lia|assumption|lia].
+    apply sorted_loop_spec; [apply p_le; lia|assumption|lia|apply Hmono; lia].
   - exists r. split; [assumption|]. rewrite Hq. unfold adj_sorted.
-    split; intros H i; [intros; apply H; lia|intros _; apply H].
+    split; intros H i.
+    + intros Hi t T1 T2. apply (H i); [lia|assumption|assumption|assumption].
+    + intros _ Hi. apply H; assumption.
 Qed.
 
 Lemma has_duplicates_spec : exists r, has_duplicates p j row = Ok r /\ (r = true <-> adj_dup).
@@ -156,7 +158,7 @@ Proof.
   - lia.
   - intros i _ Hi. rewrite (getN_ok p i 0) by lia. cbn [bind]. rewrite uadd_small by lia.
     rewrite (getN_ok p (i + 1) 0) by lia. cbn [bind].
-    apply dup_loop_spec; [apply p_le; lia|assumption|lia].
+    apply dup_loop_spec; [apply p_le; lia|assumption|lia|apply Hmono; lia].
   - exists r. split; [assumption|]. rewrite Hq. unfold adj_dup.
     split; intros (i & I1 & I2); exists i; [tauto|]. split; [lia|]. tauto.
 Qed.
@@ -190,7 +192,7 @@ Theorem has_canonical_format_spec (m : mat) :
     (r = true <-> ((forall i, i < crow m -> pN m i <= pN m (i + 1)) /\ forall i, i < crow m -> row_sorted m i)).
 Proof.
   intros Hlen Hrow Hj Hn. unfold has_canonical_format.
-  destruct (p_monotone_spec (cp m) (crow m) Hlen Hrow) as (r1 & Hr1 & Hq1). rewrite Hr1. cbn [bind].
+  destruct (p_monotone_spec (cp m) (cj m) (crow m) Hlen Hrow Hj) as (r1 & Hr1 & Hq1). rewrite Hr1. cbn [bind].
   destruct r1.
   - assert (Hmono : mono_p (cp m) (crow m)) by (apply Hq1; reflexivity).
     assert (Hnn : nthN (cp m) (crow m) 0 <= lenN (cj m)) by (unfold pN in Hn; lia).
